@@ -31,6 +31,8 @@ ${
     proof-rule-mp.1 $e |- ph0 $.
     proof-rule-mp   $a |- ph1 $.
 $}
+ax.k $a |- ( \\imp ph0 ( \\imp ph1 ph0 ) ) $.
+.id $a |- ( \\imp c0 c0 ) $.
 '''
 
 
@@ -133,7 +135,8 @@ def layouts(labels, letters):
 
 def labels_chunk(_):
     out = {'evals': 0, 'viol': []}
-    pool = ['imp-is-pattern', 'proof-rule-prop-1', 'proof-rule-mp', 'proof-rule-prop-2']
+    # (labels may contain periods, hyphens and underscores)
+    pool = ['imp-is-pattern', 'proof-rule-prop-1', 'ax.k', 'proof-rule-mp', '.id', 'proof-rule-prop-2']
     floats = ''.join(f'{v}-is-pattern $f #Pattern {v} $.\n' for v in ('ph0', 'ph1', 'ph2'))
     for n in range(0, 4):
         for labs in itertools.permutations(pool, n):
